@@ -234,7 +234,7 @@ def _work(job: tuple) -> dict:
 
 
 def run(ctx: Ctx) -> int:
-    defs = E.select(ctx, space.universe(ctx.thorough))
+    defs = E.select(ctx, space.universe(ctx.thorough, big=True))
     shards = E.make_shards(defs, 10 if not ctx.thorough else 24)
     cfgs = configs(ctx)
     jobs = E.debug_filter([(i, sh, ctx.scratch, ctx.thorough, cfgs) for i, sh in enumerate(shards)])
